@@ -40,6 +40,10 @@ CLAIMED = {
          "Structural necessary conditions of 'never skipped, whatever events came before' and 'any number of state rules': the memoised pre-check reads only fields the memo key is derived from; every index mutation resets the memo; "
          "every rule-count dependent shift is bounded below the mask width by a dominating condition; for each of the three index implementations the pre-check's negative guard implies the match's and the match descends only where the pre-check does. "
          "Which rules match which event (runtime values), suppression/scope values and duplicate firing through overlapping kind patterns are not decided.", "3/C01"),
+ "C11": ("effect analysis of the closures flowing into engine.Rule.Action (captured-variable writes), provenance of per-invocation scope/instance state, effect analysis of all Eval-reachable interpreter functions (no write to the shared tree), guarded-by analysis of scope storage",
+         "Structural necessary conditions of isolation decided from source: the action closure (called concurrently by all workers) writes no captured variable and hands none to a writing callee; the sink/function body gets a scope and an instance state allocated in the call; "
+         "no Eval-path method writes memory reached from its runtime component or a shared AST node/token (lock-guarded provider tables excepted, C12); scope storage/children/parent only under the scope tree's lock. "
+         "Decides what an invocation can write that another can see, not attribution values or library-internal races.", "3/C11"),
 }
 
 NOT_YET = "check not built yet in this session (see DESIGN.md section 3 for the planned static rule)"
